@@ -1787,7 +1787,12 @@ func (t *Torrent) Request(index uint32, prio int8, request bool, want bool) (boo
 	select {
 	case t.Event <- peer.TorRequest{index, prio, request, ch}:
 		if ch != nil {
-			return true, <-ch, nil
+			select {
+			case done := <-ch:
+				return true, done, nil
+			case <-t.Done:
+				return false, nil, ErrTorrentDead
+			}
 		}
 		return true, nil, nil
 	case <-t.Done:
